@@ -136,6 +136,10 @@ func (ex *Exec) execCommon(st *State, c *ssa.CallCommon, site ssa.Value, pos tok
 		if callee.Blocks == nil && callee.Synthetic == "" && false {
 			_ = callee
 		}
+		if ex.inlineDepth < 3 && ex.inlinable(callee) {
+			evalArgs()
+			return ex.inlineCall(st, callee, args)
+		}
 		// immediately-invoked closure or unknown function: opaque
 		ex.havocAll(st, name)
 		ex.calledOpaque[name] = true
